@@ -37,4 +37,6 @@ def run(prog, rep, tier):
         apply(rep, "E9", "lexical names: binding, shadowing, per-stack values, rebinding and unbound names, through assertions, captures, alternatives, closures (engine interpreted against the reference semantics)", e9, 1)
     else:
         apply(rep, "E9", "lexical names: binding, shadowing, per-stack values, rebinding and unbound names, through assertions, captures, alternatives, closures (engine interpreted against the reference semantics)", ([i for i in e9[0] if i[0] in ('E9:names',)], [f for f in e9[1] if f["key"] in ('E9:names',)]), 1)
+    import r_front
+    apply(rep, "E11", "names written in query text (`let`, `(|A B| ..)`, `[|A| ..]`, `{|A| ..}`, the scopes of doc/syntax.rst) bind, shadow and go out of scope as documented (query text -> scanner simulation -> LALR automaton of parser.yy with every action interpreted -> tree::simplify -> build_exec -> op engine, all interpreted, against the documented meaning of the notation)", r_front.e11(prog, tier, ("E11:names",)), 1)
     maybe_mutants("C03", rep, tier)
